@@ -63,7 +63,13 @@ func oracleProvenance(r *foRun, log []foEvent) []foFinding {
 	buildErrExit := map[int64]foEvent{}
 	primed := map[int64]int{}
 	injected := map[int64]foEvent{}
+	bareExpired := map[int]int64{} // key -> seq of the first read that reported a bare ErrExpired
 	for _, e := range log {
+		if e.Kind == "be.read" && e.Note == "bare-expired" {
+			if _, ok := bareExpired[e.Key]; !ok {
+				bareExpired[e.Key] = e.Seq
+			}
+		}
 		switch e.Kind {
 		case "prepop":
 			prepop[e.Val] = e.Key
@@ -135,6 +141,11 @@ func oracleProvenance(r *foRun, log []foEvent) []foFinding {
 				out = append(out, foFinding{"unknown-error", where + ": backend error was never injected"})
 			} else if ie.Key != e.Key {
 				out = append(out, foFinding{"cross-key-error", where + fmt.Sprintf(": backend error was injected on an operation for key %d", ie.Key)})
+			}
+		case "expired":
+			// only legitimate if the backend itself produced a bare ErrExpired for this key before the Get returned
+			if seq, ok := bareExpired[e.Key]; !ok || seq > e.Seq {
+				out = append(out, foFinding{"foreign-error", where + ": ErrExpired was not produced by the backend for this key"})
 			}
 		default:
 			out = append(out, foFinding{"foreign-error", where + ": error was produced neither by a builder nor by the (fault-injected) backend"})
@@ -301,6 +312,7 @@ type foCase struct {
 	FaultOps string            `json:"fault_ops"`
 	FailPct  int               `json:"builder_fail_pct"`
 	SlowBuilds bool            `json:"slow_builds"`
+	NilValues  bool            `json:"nil_values"`
 	Seed     int64             `json:"seed"`
 }
 
@@ -428,7 +440,7 @@ func (c *foCase) run() *foExec {
 	slow := c.SlowBuilds
 	r.script = func(key, inv int) buildOutcome {
 		h := mix64(seed ^ uint64(key+1)*0x9E3779B97F4A7C15 ^ uint64(inv+1)*0xC2B2AE3D27D4EB4F)
-		out := buildOutcome{OK: h%100 >= failPct, CtxErr: (h>>9)%3 == 0}
+		out := buildOutcome{OK: h%100 >= failPct, CtxErr: (h>>9)%3 == 0, Nil: c.NilValues && (h>>13)%2 == 0}
 		if slow {
 			out.Sleep = 3 * time.Millisecond
 		}
